@@ -8,7 +8,7 @@ import re
 
 from ..effects import Effects
 from ..facts import calls_in
-from ..index import FuncInfo, norm, own_nodes, short
+from ..index import FuncInfo, dotted_of, norm, own_nodes, short
 
 PROPERTY = "C06"
 RULES = {
@@ -86,14 +86,40 @@ def _complete_step_guard(text: str) -> bool:
     return False
 
 
+def _ascending_release_loop(f) -> bool:
+    """the loop that releases the dropped inputs visits them in ascending order, smallest index first: every `for i in <range>` whose
+    body calls replace_input_with(i, …) iterates a plain two-argument `range(lo, hi)` (no reversed(), no negative step)"""
+    size = f.params[1] if len(f.params) > 1 else None
+    for n in f.node.body:
+        # … or a negative size is refused outright before anything else happens
+        if isinstance(n, ast.If) and n.body and isinstance(n.body[-1], ast.Raise) and isinstance(n.test, ast.Compare) and len(n.test.ops) == 1 and (
+                (isinstance(n.test.ops[0], ast.Lt) and norm(n.test.left) == size and norm(n.test.comparators[0]) == "0")
+                or (isinstance(n.test.ops[0], ast.Gt) and norm(n.test.comparators[0]) == size and norm(n.test.left) == "0")):
+            return True
+        if isinstance(n, (ast.For, ast.While, ast.With, ast.Try)) or (isinstance(n, ast.If) and any(isinstance(x, ast.For) for x in ast.walk(n))):
+            break
+    loops = 0
+    for n in own_nodes(f.node):
+        if isinstance(n, ast.For) and any(isinstance(c, ast.Call) and isinstance(c.func, ast.Attribute) and c.func.attr == "replace_input_with" for st in n.body for c in ast.walk(st)):
+            loops += 1
+            it = n.iter
+            if not (isinstance(it, ast.Call) and dotted_of(it.func) == "range" and len(it.args) in (1, 2) and not it.keywords):
+                return False
+    return loops > 0
+
+
+_ascending_release_loop._on_function = True
+
+
 INFEASIBLE = [
     {"guard": '^_LinkBox\\.erase: self\\.value is None', "via": None, "why": 'erase() is only called by DoublyLinkedSet.remove on a box taken from the id→box map, which holds live boxes only (C11-R3)', "requires": ()},
     {"guard": '^DoublyLinkedSet\\._insert_one_after: \\$p1\\.owning_list is not self', "via": None, "why": "box is self._root(.prev) or a box from self's own map in every caller (C11-R3 insertion entry points)", "requires": ()},
-    {"guard": '^DoublyLinkedSet\\.remove: \\(\\$\\d+ := id\\(value\\)\\) not in self\\._value_ids_to_boxes', "via": 'DoublyLinkedSet\\._insert_one_after', "why": 'the call in _insert_one_after is guarded by `id in self._value_ids_to_boxes`', "requires": ()},
-    {"guard": '^DoublyLinkedSet\\.remove: \\(\\$\\d+ := id\\(value\\)\\) not in self\\._value_ids_to_boxes', "via": '^onnx_ir\\._core:Graph\\.remove$|Graph\\.remove,', "why": 'Graph.remove validated `node.graph is self` for every node before unlinking; a node names a graph iff it is in its list (C01-R3b)', "requires": ('(node|\\$\\d+)\\.graph is not self',)},
+    {"guard": '^DoublyLinkedSet\\.remove: (\\(\\$\\d+ := id\\(value\\)\\)|id\\(value\\)) not in self\\._value_ids_to_boxes', "via": 'DoublyLinkedSet\\._insert_one_after', "why": 'the call in _insert_one_after is guarded by `id in self._value_ids_to_boxes`', "requires": ()},
+    {"guard": '^DoublyLinkedSet\\.remove: (\\(\\$\\d+ := id\\(value\\)\\)|id\\(value\\)) not in self\\._value_ids_to_boxes', "via": '^onnx_ir\\._core:Graph\\.remove$|Graph\\.remove,', "why": 'Graph.remove validated `node.graph is self` for every node before unlinking; a node names a graph iff it is in its list (C01-R3b)', "requires": ('(node|\\$\\d+)\\.graph is not self',)},
     {"guard": '^DoublyLinkedSet\\._insert_one_after: \\$p2 is None', "via": None, "why": 'every Graph-level caller dereferences the node (node.graph) in _set_node_graph_to_self_and_assign_names first', "requires": ()},
     {"guard": '^Value\\._remove_usage: `self\\._uses\\.pop\\(Usage\\(\\$p1, \\$p2\\)\\)`: key absent', "via": None, "why": 'a use (node, i) is registered for every non-None input slot (C01-R3a), and the caller checked old_input is not None', "requires": ()},
-    {"guard": '^Node\\.replace_input_with: index < 0 or index >= len\\(self\\.inputs\\)', "via": 'Graph\\.remove|Node\\.resize_inputs|Value\\.replace_all_uses_with', "why": 'the index is drawn from range(len(node.inputs)) / from value.uses(), which are in range for their node (C01-R3a)', "requires": ()},
+    {"guard": '^Node\\.replace_input_with: index < 0 or index >= len\\(self\\.inputs\\)', "via": 'Graph\\.remove|Value\\.replace_all_uses_with', "why": 'the index is drawn from range(len(node.inputs)) / from value.uses(), which are in range for their node (C01-R3a)', "requires": ()},
+    {"guard": '^Node\\.replace_input_with: index < 0 or index >= len\\(self\\.inputs\\)', "via": 'Node\\.resize_inputs', "why": 'the indices are visited in ascending order from new_size up to the current size: the only one that can be out of range (a negative new_size) is the first, checked before anything is released', "requires": (_ascending_release_loop,)},
     {"guard": '^Value\\.name\\.setter: ', "via": 'NameAuthority\\.register_or_name_value', "why": "the name authority assigns a name only when value.name is None, and an initializer always has a name, so the setter's initializer branch is dead", "requires": ()},
     {"guard": '^(GraphInitializers\\.(__setitem__|_check_item)|GraphInitializers\\.(_set_graph|_check_can_set_graph)|UserDict\\.__delitem__@GraphInitializers): ', "via": 'NameAuthority\\.register_or_name_value', "why": "reached only through the name setter's initializer branch, dead for a value whose name is None", "requires": ()},
     {"guard": '^GraphInitializers\\.(__setitem__|_check_item): not isinstance\\((value|\\$p2), _core\\.Value\\)', "via": 'Value\\.name\\.setter', "why": 'the value re-keyed by the name setter is `self`, a Value', "requires": ()},
@@ -112,9 +138,9 @@ INFEASIBLE = [
     {"guard": '^Value\\.replace_all_uses_with: self\\.is_graph_output\\(\\) and not replace_graph_outputs', "via": '^onnx_ir\\._convenience:replace_nodes_and_values,', "why": 'replace_nodes_and_values passes replace_graph_outputs=True', "requires": ()},
     {"guard": '^Shape\\.__setitem__: self\\._frozen', "via": 'Value\\.merge_shapes', "why": 'merge_shapes copies a frozen shape before writing into it', "requires": ()},
     {"guard": '^(SymbolicDim\\.__init__|_maybe_convert_to_symbolic_dim): ', "via": 'Value\\.merge_shapes', "why": 'merged dims are taken from existing Shapes, whose elements are int or SymbolicDim', "requires": ()},
-    {"guard": '^Value\\.shape\\.setter: always', "via": 'replace_nodes_and_values', "why": "old_value.shape is a Shape or None by the same setter's invariant", "requires": ()},
+    {"guard": '^Value\\.shape\\.setter: (always|value is not None and not \\(isinstance\\(value, Shape\\)\\))', "via": 'replace_nodes_and_values', "why": "old_value.shape is a Shape or None by the same setter's invariant", "requires": ()},
     {"guard": '^UserList\\.__delitem__@_GraphIO: key of `del self\\.data\\[i\\]` absent', "via": '_GraphIO\\.__delitem__', "why": '__delitem__ reads self.data[i] (IndexError before any write) with the same index first', "requires": ()},
-    {"guard": '^DoublyLinkedSet\\.insert_(after|before): \\(\\$\\d+ := id\\(value\\)\\) not in self\\._value_ids_to_boxes', "via": '^onnx_ir\\._core:Graph\\.insert_(after|before),', "why": 'the anchor was validated with `node.graph is not self` before any write; a node names a graph iff it is in its list (C01-R3b)', "requires": ('(node|\\$\\d+)\\.graph is not self',)},
+    {"guard": '^DoublyLinkedSet\\.insert_(after|before): (\\(\\$\\d+ := id\\(value\\)\\)|id\\(value\\)) not in self\\._value_ids_to_boxes', "via": '^onnx_ir\\._core:Graph\\.insert_(after|before),', "why": 'the anchor was validated with `node.graph is not self` before any write; a node names a graph iff it is in its list (C01-R3b)', "requires": ('(node|\\$\\d+)\\.graph is not self',)},
     {"guard": '^Value\\.name\\.setter: ', "via": '^onnx_ir\\._convenience:rename_values,', "why": "initializer values were popped from their graphs before renaming, so the setter's initializer branch is dead", "requires": ()},
     {"guard": '^(GraphInitializers\\.(__setitem__|_check_item)|GraphInitializers\\.(_set_graph|_check_can_set_graph)): ', "via": '^onnx_ir\\._convenience:rename_values,', "why": 'validated up front: every value is a Value, every initializer name a non-empty str without collision; values are re-added under their own new names to the graph they were popped from', "requires": ("(name|\\$\\d+) == ''", 'not isinstance\\((value|\\$\\d+), _core\\.Value\\)', 'not isinstance\\((name|\\$\\d+), str\\)')},
 ]
@@ -385,6 +411,25 @@ def analyse_mutator(ef: Effects, f: FuncInfo, used: dict, own: frozenset = froze
     return [(m, c, list(u.values()), n) for m, c, u, n in by_site.values()]
 
 
+def required_validations(ef: Effects, muts, used: dict, i: int, ent: dict):
+    """[(text of the validation, mutators the entry was used for, those among them that no longer validate)] for the dominating
+    validations an infeasibility entry relies on."""
+    out = []
+    for need in ent["requires"]:
+        # every mutator the entry was used for (and that the entry's `via` names) must still validate by itself
+        holders = [f for f in muts if ent["via"] and re.search(ent["via"], f.key + ",") and f.key in used.get(("by", i), ())]
+        if getattr(need, "_on_function", False):
+            # a witness that is a shape of the mutator itself (e.g. the order in which a loop visits its indices), not one of its rejections
+            missing = [f for f in holders if not need(f)]
+        else:
+            missing = [f for f in holders if not any(
+                (need(r.cond + " ## " + _expanded_guard(f, r.node)) if callable(need) else re.search(need, r.cond + " ## " + _expanded_guard(f, r.node)))
+                for r in ef.summary(f).rejs.values() if r.origin == f.key)]
+        text = (need.__doc__ or need.__name__).split(":")[0][:90] if callable(need) else need
+        out.append((text, holders, missing))
+    return out
+
+
 def rule_r3(ctx):
     from ..shared import iterable_consumed_twice
 
@@ -457,13 +502,7 @@ def run(ctx):
                   how=f"matched {used.get(i, 0)} rejection point(s): {ent['why'][:80]}", symbol="C06:INFEASIBLE",
                   construct=f"stale entry {ent['guard']} via {ent['via']}", nontrivial=False)
         # a dominating validation in the mutator that makes the guard infeasible must still exist
-        for need in ent["requires"]:
-            # every mutator the entry was used for (and that the entry's `via` names) must still validate by itself
-            holders = [f for f in muts if ent["via"] and re.search(ent["via"], f.key + ",") and f.key in used.get(("by", i), ())]
-            missing = [f for f in holders if not any(
-                (need(r.cond + " ## " + _expanded_guard(f, r.node)) if callable(need) else re.search(need, r.cond + " ## " + _expanded_guard(f, r.node)))
-                for r in ef.summary(f).rejs.values() if r.origin == f.key)]
-            need = (need.__doc__ or need.__name__).split(":")[0][:90] if callable(need) else need
+        for need, holders, missing in required_validations(ef, muts, used, i, ent):
             ctx.check("R2", f"table entry {i} requires validation `{need}`", bool(holders) and not missing, ctx.repo.module(CORE), None,
                       f"the validation `{need}` that makes this guard infeasible is gone from {', '.join(f.local for f in missing) or 'the mutator'}",
                       how="a rejection with that condition exists in each mutator the entry is used for", symbol="C06:INFEASIBLE",
